@@ -8,6 +8,10 @@
   remaining suffix `bytes[pos..]` and returns the new suffix, so "`pos` advanced" is "the suffix got
   shorter" and `*pos = bytes.len()` is "the suffix is `[]`". Every `bytes[*pos]` in the Rust is
   preceded by a `*pos == bytes.len()` test; the model has the same tests as matches on `[]`.
+  In this style an index out of range cannot be written down, so this file proves termination and the
+  functional statements only. The index sites themselves (four `bytes[*pos]`, three `&bytes[a..b]`)
+  are explicit panic outcomes in `Model/ScanCd.lean`, which keeps the `pos` cursor; that model is
+  proven never to panic and to be equal to this one (`Lemmas/ScanCdEquiv.lean`).
   External: `String::from_utf8_lossy` / `percent_decode(..).decode_utf8_lossy()` (std,
   percent-encoding) are modelled executably by `utf8Lossy`/`percentDecode` and tied by T2 only.
 -/
@@ -62,8 +66,12 @@ def scanValue (quoted : Bool) : Bool → List Nat → List Nat × List Nat
       let r := scanValue quoted (b = 92 && !esc) t
       (b :: r.1, r.2)
 
-/-- "Skip the end double quote": `if is_quoted_string && *pos != bytes.len() { *pos += 1 }`. -/
-def dropQuote (quoted : Bool) (r : List Nat) : List Nat := if quoted then r.tail else r
+/-- "Skip the end double quote": `if is_quoted_string && *pos != bytes.len() { *pos += 1 }` — one byte
+is dropped only when the value was quoted and the input has not ended. -/
+def dropQuote (quoted : Bool) (r : List Nat) : List Nat :=
+  match quoted, r with
+  | true, _ :: t => t
+  | _, r => r
 
 /-- The tail of `parse_param_value` after the value was scanned: skip whitespace, then expect the
 end of input or a `;` (consumed); anything else abandons the rest of the header. -/
